@@ -293,7 +293,7 @@ pub fn strategy() -> BoxedStrategy<Case> {
     ];
     let finite = (
         benign_spec(4),
-        span_wide(-11.4, 6.0),
+        span_wide(-14.5, 6.0),
         any_method(),
         tols(4, 3.0, 8.0),
         opt_first.clone(),
